@@ -22,6 +22,7 @@ import itertools
 import numpy as np
 
 from harness.common import bitstr, rowsstr, exc_class
+from harness.c09_shapes import array_problem, int_problem, describe, any_fill, fill
 
 LET = 'IXYZ'
 XB = {'I': '0', 'X': '1', 'Y': '1', 'Z': '0'}
@@ -212,11 +213,13 @@ def run_iterators(ctx, pt):
 # 2. call histories of every public function
 # ------------------------------------------------------------------------------------------------------------------
 def _rbits(rng, k):
-    return np.array([rng.randint(0, 1) for _ in range(k)], dtype=int)
+    """a binary vector; all-zero, all-one and one-hot vectors come up with moderate probability"""
+    return np.array(fill(rng, 1, k, any_fill(rng))[0], dtype=int).reshape(k)
 
 
 def _rmat(rng, r, c):
-    return np.array([[rng.randint(0, 1) for _ in range(c)] for _ in range(r)], dtype=int)
+    """a binary matrix; all-zero (every stacked operator the identity), all-one, one-hot and partly zero ones too"""
+    return np.array(fill(rng, r, c, any_fill(rng)), dtype=int).reshape(r, c)
 
 
 def _rpauli(rng, n):
@@ -232,8 +235,36 @@ class Op:
     """name; gen(rng)->args (a list of Python objects, freshly built); line(args)->model request;
     canon(result)->canonical string; arrays(result)->list of ndarrays owned by the caller"""
 
-    def __init__(self, name, call, gen, line, canon, arrays=lambda r: [r] if isinstance(r, np.ndarray) else []):
-        self.name, self.call, self.gen, self.line, self.canon, self.arrays = name, call, gen, line, canon, arrays
+    def __init__(self, name, call, gen, line, canon, arrays=lambda r: [r] if isinstance(r, np.ndarray) else [],
+                 problem=None):
+        self.name, self.call, self.gen, self.line, self._canon, self.arrays = name, call, gen, line, canon, arrays
+        self._problem = problem
+
+    def canon(self, r):
+        """canonical string of a result; a result of an unexpected type or shape must not stop the run"""
+        try:
+            return self._canon(r)
+        except Exception:  # noqa
+            return 'UNCANON(%s)' % describe(r)
+
+    def problem(self, args, r):
+        """None, or what is wrong with the type / shape of the result for these arguments"""
+        try:
+            return self._problem(args, r) if self._problem else None
+        except Exception as e:  # noqa
+            return 'result cannot be examined (%s): %s' % (exc_class(e), describe(r))
+
+
+def _is_int(a, r):
+    return int_problem(r)
+
+
+def _is_str(a, r):
+    return None if isinstance(r, str) else 'expected a string, got ' + describe(r)
+
+
+def _bsp_shape(a, r):
+    return array_problem(r, tuple(a[0].shape[:-1]) + tuple(a[1].shape[1:]))
 
 
 def _ops(pt, rng, big):
@@ -252,40 +283,49 @@ def _ops(pt, rng, big):
         return [n, lo, rng.randint(lo, n)]
 
     return [
-        Op('pauli_to_bsf', pt.pauli_to_bsf, lambda: [_rpauli(rng, n_())], lambda a: 'to_bsf ' + a[0], bitstr),
+        Op('pauli_to_bsf', pt.pauli_to_bsf, lambda: [_rpauli(rng, n_())], lambda a: 'to_bsf ' + a[0], bitstr,
+           problem=lambda a, r: array_problem(r, (2 * len(a[0]),))),
         Op('pauli_to_bsf(list)', pt.pauli_to_bsf,
            lambda: (lambda n: [[_rpauli(rng, n) for _ in range(rng.randint(1, 4))]])(n_()),
-           lambda a: 'to_bsf_list ' + ','.join(a[0]), rowsstr),
-        Op('pauli_wt', pt.pauli_wt, lambda: [_rpauli(rng, n_())], lambda a: 'pauli_wt ' + a[0], lambda r: str(int(r))),
+           lambda a: 'to_bsf_list ' + ','.join(a[0]), rowsstr,
+           problem=lambda a, r: array_problem(r, (len(a[0]), 2 * len(a[0][0])))),
+        Op('pauli_wt', pt.pauli_wt, lambda: [_rpauli(rng, n_())], lambda a: 'pauli_wt ' + a[0], lambda r: str(int(r)),
+           problem=_is_int),
         Op('pauli_wt(list)', pt.pauli_wt,
            lambda: (lambda n: [[_rpauli(rng, n) for _ in range(rng.randint(1, 4))]])(n_()),
-           lambda a: 'pauli_wt_list ' + ','.join(a[0]), lambda r: str(int(r))),
+           lambda a: 'pauli_wt_list ' + ','.join(a[0]), lambda r: str(int(r)), problem=_is_int),
         Op('bsf_to_pauli', pt.bsf_to_pauli, lambda: [_rbits(rng, 2 * n_())], lambda a: 'of_bsf ' + bitstr(a[0]),
-           lambda r: r),
+           lambda r: r, problem=_is_str),
         Op('bsf_to_pauli(2d)', pt.bsf_to_pauli, lambda: [_rmat(rng, rng.randint(1, 4), 2 * n_())],
-           lambda a: 'of_bsf_list ' + rowsstr(a[0]), lambda r: ','.join(r)),
+           lambda a: 'of_bsf_list ' + rowsstr(a[0]), lambda r: ','.join(r),
+           problem=lambda a, r: None if isinstance(r, list) and len(r) == a[0].shape[0]
+           and all(isinstance(x, str) for x in r) else 'expected a list of %d strings, got %s' % (a[0].shape[0],
+                                                                                                describe(r))),
         Op('bsf_wt', pt.bsf_wt, lambda: [_rbits(rng, 2 * n_())], lambda a: 'bsf_wt ' + bitstr(a[0]),
-           lambda r: str(int(r))),
+           lambda r: str(int(r)), problem=_is_int),
         Op('bsf_wt(2d)', pt.bsf_wt, lambda: [_rmat(rng, rng.randint(1, 4), 2 * n_())],
-           lambda a: 'bsf_wt_rows ' + rowsstr(a[0]), lambda r: str(int(r))),
+           lambda a: 'bsf_wt_rows ' + rowsstr(a[0]), lambda r: str(int(r)), problem=_is_int),
         Op('bsp(vec,vec)', pt.bsp, lambda: (lambda n: [_rbits(rng, 2 * n), _rbits(rng, 2 * n)])(n_()),
-           lambda a: 'bsp %s %s' % (bitstr(a[0]), bitstr(a[1])), lambda r: str(int(r))),
+           lambda a: 'bsp %s %s' % (bitstr(a[0]), bitstr(a[1])), lambda r: str(int(r)), problem=_bsp_shape),
         Op('bsp(vec,mat)', pt.bsp,
            lambda: (lambda n: [_rbits(rng, 2 * n), _rmat(rng, 2 * n, rng.randint(1, 4))])(n_()),
-           lambda a: 'bsp_vm %s %s %d' % (bitstr(a[0]), rowsstr(a[1]), a[1].shape[1]), bitstr),
+           lambda a: 'bsp_vm %s %s %d' % (bitstr(a[0]), rowsstr(a[1]), a[1].shape[1]), bitstr, problem=_bsp_shape),
         Op('bsp(mat,vec)', pt.bsp,
            lambda: (lambda n: [_rmat(rng, rng.randint(1, 4), 2 * n), _rbits(rng, 2 * n)])(n_()),
-           lambda a: 'bsp_mv %s %s' % (rowsstr(a[0]), bitstr(a[1])), bitstr),
+           lambda a: 'bsp_mv %s %s' % (rowsstr(a[0]), bitstr(a[1])), bitstr, problem=_bsp_shape),
         Op('bsp(mat,mat)', pt.bsp,
            lambda: (lambda n: [_rmat(rng, rng.randint(1, 4), 2 * n), _rmat(rng, 2 * n, rng.randint(1, 4))])(n_()),
-           lambda a: 'bsp_mm %s %s %d' % (rowsstr(a[0]), rowsstr(a[1]), a[1].shape[1]), rowsstr),
+           lambda a: 'bsp_mm %s %s %d' % (rowsstr(a[0]), rowsstr(a[1]), a[1].shape[1]), rowsstr,
+           problem=_bsp_shape),
         Op('pack', pt.pack, lambda: [_rbits(rng, rng.randint(0, 4 * big))], lambda a: 'pack ' + bitstr(a[0]),
            lambda r: '%s %d' % (_hexs(r[0]), r[1])),
-        Op('unpack', pt.unpack, gen_unpack, lambda a: 'unpack %s %d' % (_hexs(a[0][0]), a[0][1]), bitstr),
+        Op('unpack', pt.unpack, gen_unpack, lambda a: 'unpack %s %d' % (_hexs(a[0][0]), a[0][1]), bitstr,
+           problem=lambda a, r: array_problem(r, (a[0][1],))),
         Op('list(ipauli)', lambda *a: list(pt.ipauli(*a)), gen_iter, lambda a: 'ipauli %d %d %d' % tuple(a),
            lambda r: ','.join(r) or '-', lambda r: []),
         Op('list(ibsf)', lambda *a: list(pt.ibsf(*a)), gen_iter, lambda a: 'ibsf %d %d %d' % tuple(a),
-           rowsstr, lambda r: list(r)),
+           rowsstr, lambda r: list(r),
+           problem=lambda a, r: next((p for p in (array_problem(x, (2 * a[0],)) for x in r) if p), None)),
     ]
 
 
@@ -334,9 +374,16 @@ def run_histories(ctx, pt):
 
     def call(op, args):
         try:
-            return op.call(*args), None
+            r = op.call(*args)
         except Exception as e:  # noqa
             return None, 'ERR ' + exc_class(e)
+        prob = op.problem(args, r)
+        if prob:
+            # the type / shape of an answer is part of the answer: one entry per stacked operator, an integer weight...
+            ctx.violation('result-shape', '%s: %s' % (op.name, prob),
+                          {'fn': op.name, 'request': op.line(args)[:600], 'got': describe(r)})
+            return None, 'SHAPE ' + describe(r)[:200]
+        return r, None
 
     def record(op, line, got, stage, hist, first):
         recs.append((op.name, line, got, stage, {'fn': op.name, 'request': line[:600], 'stage': stage,
